@@ -302,6 +302,9 @@ def jobs_for(t):
             add(g, events(g.nodes, 3, 2, stride=1))
         for g in family(3, labellings=("fwd",), n_min=3):
             add(g, events(g.nodes, 2, 1))
+            # every 12th event with a two-variable subscript (merging decisions that look at several parents at once)
+            two = [ev for ev in events(g.nodes, 2, 2) if any(len(s) == 2 for _, s, _ in ev)]
+            add(g, two[seed() % 12 :: 12])
         # a seed-chosen slice of the 4-node classes (bugs that need a chain of three plus a confounded or extra node)
         for i, g in enumerate(family(4, labellings=("fwd",), n_min=4)):
             if max(len(g.parents(n)) for n in g.nodes) <= 2 and i % 240 == seed() % 240:
@@ -335,7 +338,7 @@ def run() -> int:
         "returned Expression -> z3 terms over a symbolic response-type model (vf/sem/l3.py)",
     ]
     rep.bounds = {
-        "graphs": "quick: ADMGs <=2 nodes (events of <=3 atoms, subscripts <=2), ADMGs with 3 nodes (events of <=2 atoms, subscripts <=1), curated fig9/front-door/napkin/bow (single atoms, subscripts <=2) + the figure-9 query; thorough: adds two labellings, 3-node graphs with subscripts <=2 and 1/8 of the 3-atom events, 1/24 of the 4-node classes with in-degree <=2",
+        "graphs": "quick: ADMGs <=2 nodes (events of <=3 atoms, subscripts <=2), ADMGs with 3 nodes (events of <=2 atoms, subscripts <=1, and every 12th event with a two-variable subscript), curated fig9/front-door/napkin/bow (single atoms, subscripts <=2) + the figure-9 query; thorough: adds two labellings, 3-node graphs with subscripts <=2 and 1/8 of the 3-atom events, 1/24 of the 4-node classes with in-degree <=2",
         "events": "conjunctions of atoms 'V under do(S) = v' over distinct (V, S), all value polarities, S may mention V itself, at most 2 distinct non-empty worlds",
         "models": "all positive functional SCMs over binary variables with one binary latent per bidirected edge: response-type distributions given the latents are free (moment parametrisation, every atom > 0); all worlds share the exogenous state",
         "per_query_timeout_ms": TIMEOUT_MS[t],
